@@ -85,7 +85,7 @@ def asan(pid, seed):
     return res, viol
 
 
-def miri(pid, seed, shards=16, stride=16, budget_ms=6000):
+def miri(pid, seed, shards=16, stride=16, budget_ms=10000):
     t0 = time.time()
     res = {"tool": "Miri (cargo +nightly miri run)", "status": "unavailable", "shards": shards, "key_stride": stride, "gen_budget_ms": budget_ms}
     os.makedirs(PARTS, exist_ok=True)
@@ -104,9 +104,10 @@ def miri(pid, seed, shards=16, stride=16, budget_ms=6000):
         cmd = base + [pid, "quick", "--seed", str(seed * 1000 + i), "--profile", "miri", "--threads", "1", "--key-stride", str(stride), "--key-offset", str(i), "--gen-budget-ms", str(budget_ms), "--out", out]
         procs.append((out, subprocess.Popen(cmd, cwd=HARNESS, env=env, stdout=subprocess.PIPE, stderr=subprocess.PIPE, text=True)))
     viol, evals, ok = [], 0, 0
+    deadline = time.time() + 420  # generators poll their budget; this only guards against a stuck shard
     for out, p in procs:
         try:
-            so, se = p.communicate(timeout=1800)
+            so, se = p.communicate(timeout=max(5, deadline - time.time()))
         except subprocess.TimeoutExpired:
             p.kill()
             p.communicate()
